@@ -381,8 +381,8 @@ def run_history(init_state, acts, states, rep, own, label):
     return n
 
 
-HPS = ["app_1.ex:1965", "app-1.ex:1965", "app_1.ex:1966"]
-KEY = {"app_1.ex:1965": "a", "app-1.ex:1965": "b", "app_1.ex:1966": "c"}
+HPS = ["app_1.ex:1965", "app-1.ex:1965", "app_1.ex:1966", "app_1.ex.:1965"]
+KEY = {"app_1.ex:1965": "a", "app-1.ex:1965": "b", "app_1.ex:1966": "c", "app_1.ex.:1965": "d"}
 
 
 def random_history_traces(rep, rnd, count, own):
@@ -548,7 +548,10 @@ def main(pid="C03", rep=None, finish=True):
             if c is None:
                 raise tlc.TLCError("self-test: %s not caught (%s)" % (d, v))
         # ---- B1a: every transition of the MaxOps=2 graph --------------------------------------------------------------
-        path = tlc.cfg_variant("MC_Tofu.cfg", {"MaxOps": "2"}, drop=("INVARIANT", "VIEW"))
+        # (three of the four host:port pairs per run - which three depends on the seed - keep the graph small)
+        three = ['{"app_1.ex:1965", "app-1.ex:1965", "app_1.ex.:1965"}', '{"app_1.ex:1965", "app_1.ex:1966", "app_1.ex.:1965"}',
+                 '{"app_1.ex:1965", "app-1.ex:1965", "app_1.ex:1966"}'][rep.seed % 3]
+        path = tlc.cfg_variant("MC_Tofu.cfg", {"MaxOps": "2", "HP": three}, drop=("INVARIANT", "VIEW"))
         try:
             gr, g = tlc.dump_graph("Tofu", path, timeout=900)
         finally:
